@@ -138,10 +138,30 @@ def _fields_faithful(chk: core.Check, s: P.SPVStr, name: str) -> bool:
         return False
     a, b = m[k1].as_long(), m[k2].as_long()
     sa, sb = real_to_pv(1000 * a), real_to_pv(1000 * b)
-    chk.counterexample(
-        name, "z3", secs, sig="format-drops-field",
-        what=f"instants {a}us and {b}us are rendered as {sa!r} and {sb!r}: the string does not determine the instant",
-        replay={"kind": "to_pv_pair", "k": [a, b]}, reproduced=(sa == sb or parse_us(sa) != a or parse_us(sb) != b))
+    if sa == sb or parse_us(sa) != a or parse_us(sb) != b:
+        chk.counterexample(
+            name, "z3", secs, sig="format-drops-field",
+            what=f"instants {a}us and {b}us are rendered as {sa!r} and {sb!r}: the string does not determine the instant",
+            replay={"kind": "to_pv_pair", "k": [a, b]}, reproduced=True)
+        return False
+    # the model was built on the over-approximation "an unmodelled directive shows nothing"; z3 has shown that the
+    # format cannot be PROVED faithful - look for a real witness among day/hour boundaries of the whole range
+    t0 = time.time()
+    day = 86_400_000_000
+    for d in range(0, K_MAX // day + 1):
+        for off in (0, 12 * 3600 * 10**6 + 34_567_891, day - 1):
+            kv = d * day + off
+            if kv > K_MAX:
+                continue
+            if real_to_pv(1000 * kv) != canonical(kv):
+                chk.counterexample(
+                    name, "z3+witness-search", secs + time.time() - t0, sig="format-not-faithful",
+                    what=f"unix_nano_to_pv_string({1000*kv}) = {real_to_pv(1000*kv)!r}, the instant is {canonical(kv)!r} "
+                         f"(format uses directives {P.UNKNOWN_DIRECTIVES or 'that drop a field'})",
+                    replay={"kind": "to_pv", "k": kv}, reproduced=True)
+                return False
+    chk.unknown(name, "z3", secs, f"format with unmodelled directives {P.UNKNOWN_DIRECTIVES} could not be proved faithful "
+                "and no concrete witness was found")
     return False
 
 
